@@ -115,6 +115,14 @@ def run(ctx):
         for name, root in meshmc.deep_histories(cfgname, 3 if ctx.tier == 'quick' else 5).items():
             meshmc.explore(ctx, cfgname, 1 if ctx.tier == 'quick' else 2, state_fn, trans_leafset, onv, stats=st, root=root,
                            label='{}+deep:{}'.format(cfgname, name))
+    # very deep directed roots away from the origin (element sizes tiny relative to their coordinates: time level 22 next to
+    # t = T, space level 22 next to x = L) and a long staircase (16 columns, corner leaf at time level 13)
+    for cfgname in ('UnitSquare', 'glued2x2', 'open_irreg3x3'):
+        for name, root in meshmc.deep_end_histories(cfgname, 22 if ctx.tier == 'quick' else 30).items():
+            if name == 'staircase':
+                root = meshmc.deep_end_histories(cfgname, 13 if ctx.tier == 'quick' else 16)['staircase']
+            meshmc.explore(ctx, cfgname, 0 if ctx.tier == 'quick' else 1, state_fn, trans_leafset, onv, stats=st, root=root,
+                           label='{}+deepend:{}'.format(cfgname, name))
     nrw = random_walks(ctx, st, 6 if ctx.tier == 'quick' else 40, 60 if ctx.tier == 'quick' else 200)
     cov = {
         'states': st.states, 'transitions': st.transitions + int(st.extra.get('derived_transitions', 0)),
